@@ -16,6 +16,8 @@ pub struct Case {
     pub tys: Vec<Ty>,
     pub feats: BTreeSet<&'static str>,
     pub mode: CmpMode,
+    /// physical layout (partitions / batches) of every table, recorded so a witness replays exactly
+    pub layout: crate::engine::DbLayout,
 }
 
 impl Case {
@@ -24,7 +26,9 @@ impl Case {
         let (query, tys, feats) = gen_query(rng, &db, cfg);
         let sql = to_sql(&query);
         let mode = mode_for(&query);
-        Case { db, query, sql, tys, feats, mode }
+        let nparts = 1 + rng.usize(3);
+        let layout = crate::engine::random_db_layout(&db, nparts, 3, rng);
+        Case { db, query, sql, tys, feats, mode, layout }
     }
 
     pub fn reference(&self) -> Result<Vec<Row>, RefErr> {
@@ -46,6 +50,7 @@ impl Case {
         json!({
             "sql": self.sql,
             "tables": db_to_json(&self.db),
+            "layout": json!(self.layout),
             "compare_mode": format!("{:?}", self.mode),
             "engine_rows": engine.map(rows_to_json),
             "reference_rows": reference.map(rows_to_json),
